@@ -44,6 +44,8 @@ LANES = {
     "asanrel": dict(toolchain="nightly", profile="release", features=["std"],
                     rustflags="-Zsanitizer=address -Cforce-frame-pointers=yes", target="x86_64-unknown-linux-gnu"),
     "memcheck": dict(alias="rel", valgrind=True),
+    # source-coverage build (not a check lane: used by `./run.py coverage`)
+    "cov": dict(toolchain="nightly", profile="dev", features=["std", "vclock"], rustflags="-Cinstrument-coverage"),
 }
 
 
@@ -605,8 +607,89 @@ def check(prop, tier, seed):
     return rc
 
 
+def coverage():
+    """Which lines of /repo/src do the quick workloads actually execute?  Builds the harness with
+    -Cinstrument-coverage, runs every property's workload (two shards, quick level, reduced
+    budget), merges the profiles and writes evidence/coverage.json."""
+    import glob
+    tools = os.path.join(os.path.expanduser("~"), ".rustup/toolchains/nightly-x86_64-unknown-linux-gnu/lib/rustlib/x86_64-unknown-linux-gnu/bin")
+    ok, log, secs = build_lane("cov")
+    if not ok:
+        print("coverage build failed:\n" + tail(log, 30))
+        return 2
+    prof = os.path.join(TARGET, "cov", "prof")
+    shutil.rmtree(prof, ignore_errors=True)
+    os.makedirs(prof)
+    binp = binary_path("cov")
+    per_prop = {}
+    for prop in sorted(PLAN):
+        q = [l for l in PLAN[prop]["quick"] if l["lane"] == "dbg"][0]
+        env = lane_env("cov")
+        env["LLVM_PROFILE_FILE"] = os.path.join(prof, prop + "-%p.profraw")
+        for shard in range(2):
+            out = os.path.join(prof, "%s-%d.json" % (prop, shard))
+            cmd = [binp, prop, "--lane", "cov", "--level", "1", "--budget", str(max(1, q["budget"] // 2)), "--seed", "1", "--shard", str(shard),
+                   "--nshards", str(max(2, q["nshards"])), "--out", out]
+            subprocess.run(cmd, cwd=HARNESS, env=env, stdout=subprocess.PIPE, stderr=subprocess.PIPE, timeout=1800)
+        raws = glob.glob(os.path.join(prof, prop + "-*.profraw"))
+        pd = os.path.join(prof, prop + ".profdata")
+        subprocess.run([os.path.join(tools, "llvm-profdata"), "merge", "-sparse"] + raws + ["-o", pd], check=True)
+        per_prop[prop] = pd
+    allpd = os.path.join(prof, "all.profdata")
+    subprocess.run([os.path.join(tools, "llvm-profdata"), "merge", "-sparse"] + list(per_prop.values()) + ["-o", allpd], check=True)
+
+    def lcov(pd):
+        p = subprocess.run([os.path.join(tools, "llvm-cov"), "export", "-format=lcov", "-instr-profile=" + pd, binp], stdout=subprocess.PIPE, stderr=subprocess.PIPE, text=True)
+        files, cur = {}, None
+        for line in p.stdout.splitlines():
+            if line.startswith("SF:"):
+                cur = line[3:]
+                files.setdefault(cur, {})
+            elif line.startswith("DA:") and cur:
+                ln, cnt = line[3:].split(",")[:2]
+                files[cur][int(ln)] = files[cur].get(int(ln), 0) + int(cnt)
+        return {f: d for f, d in files.items() if "/repo/src/" in f or f.startswith(REPO + "/src/")}
+
+    total = lcov(allpd)
+    summary, uncovered = {}, {}
+    for f, d in sorted(total.items()):
+        rel = f[f.index("/src/") + 1:]
+        lines = len(d)
+        hit = sum(1 for c in d.values() if c > 0)
+        summary[rel] = dict(lines=lines, covered=hit, percent=round(100.0 * hit / max(1, lines), 1))
+        miss = sorted(l for l, c in d.items() if c == 0)
+        # compress into ranges
+        ranges, start, prev = [], None, None
+        for l in miss:
+            if start is None:
+                start = prev = l
+            elif l == prev + 1:
+                prev = l
+            else:
+                ranges.append((start, prev))
+                start = prev = l
+        if start is not None:
+            ranges.append((start, prev))
+        uncovered[rel] = ["%d-%d" % r if r[0] != r[1] else "%d" % r[0] for r in ranges]
+    by_prop = {}
+    for prop, pd in per_prop.items():
+        d = lcov(pd)
+        by_prop[prop] = {f[f.index("/src/") + 1:]: sum(1 for c in v.values() if c > 0) for f, v in d.items() if any(c > 0 for c in v.values())}
+    tl = sum(v["lines"] for v in summary.values())
+    tc = sum(v["covered"] for v in summary.values())
+    doc = dict(what="line coverage of /repo/src by the quick-level workloads of all checks (dbg profile, 2 shards each, half budget)",
+               total=dict(lines=tl, covered=tc, percent=round(100.0 * tc / max(1, tl), 1)), files=summary, uncovered_lines=uncovered,
+               lines_hit_per_property=by_prop)
+    with open(os.path.join(ROOT, "evidence", "coverage.json"), "w") as f:
+        json.dump(doc, f, indent=1, sort_keys=True)
+    for rel, v in summary.items():
+        print("%-36s %4d/%4d lines  %5.1f%%   uncovered: %s" % (rel, v["covered"], v["lines"], v["percent"], ",".join(uncovered[rel][:12])))
+    print("TOTAL %d/%d lines %.1f%%" % (tc, tl, 100.0 * tc / max(1, tl)))
+    return 0
+
+
 def setup():
-    lanes = [l for l in LANES if "alias" not in LANES[l]]
+    lanes = [l for l in LANES if "alias" not in LANES[l] and l != "cov"]
     ok_all = True
     with ThreadPoolExecutor(max_workers=4) as ex:
         for lane, (ok, log, secs) in zip(lanes, ex.map(build_lane, lanes)):
@@ -661,6 +744,8 @@ def main():
         return check(prop, tier, seed)
     if cmd == "replay":
         return replay(sys.argv[2])
+    if cmd == "coverage":
+        return coverage()
     if cmd == "selftest":
         import selftest
         return selftest.main(sys.argv[2:])
